@@ -178,7 +178,10 @@ def run_check(pid, tier, seed):
             shards = max(shards, sh)
         return merge(pid, chk, tier, seed, results, scratch, t_start, build_s, shards)
     finally:
-        shutil.rmtree(scratch, ignore_errors=True)
+        if os.environ.get("VERIF_KEEP"):
+            print("scratch kept:", scratch)
+        else:
+            shutil.rmtree(scratch, ignore_errors=True)
 
 
 def merge(pid, chk, tier, seed, results, scratch, t_start, build_s, shards):
